@@ -30,9 +30,10 @@ impl PixelDataWriter for W {
 }
 
 fn main() {
-    // enumerate frame-length vectors: up to 3 frames, lengths 0..=9
+    // enumerate frame-length vectors: up to 3 frames of lengths 0..=9, and 4 frames of lengths 0..=5
     let mut tried = 0u32;
-    for n in 1..=3usize {
+    for n in 1..=4usize {
+        let top = if n == 4 { 5 } else { 9 };
         let mut lens = vec![0usize; n];
         loop {
             tried += 1;
@@ -49,13 +50,15 @@ fn main() {
             if r.is_err() || bot != expect || !frag_ok {
                 println!("WITNESS unit=C18.encode_default frame_lengths={:?} offset_table={:?} expected={:?} fragments_ok={}", lens, bot, expect, frag_ok);
                 println!("reproduce: cargo run --offline --manifest-path /verif/witness/Cargo.toml --bin c18_encode");
+                println!("EXHAUSTIVE unit=C18.encode_native cases={} mismatches=1", tried);
                 return;
             }
             // next vector
             let mut i = 0;
-            while i < n { lens[i] += 1; if lens[i] <= 9 { break; } lens[i] = 0; i += 1; }
+            while i < n { lens[i] += 1; if lens[i] <= top { break; } lens[i] = 0; i += 1; }
             if i == n { break; }
         }
     }
-    println!("no witness: {} frame-length vectors (<=3 frames, lengths 0..=9) agree with the spec", tried);
+    println!("no witness: {} frame-length vectors (<=4 frames, lengths 0..=9, 0..=5 for 4 frames) agree with the spec", tried);
+    println!("EXHAUSTIVE unit=C18.encode_native cases={} mismatches=0", tried);
 }
